@@ -316,7 +316,8 @@ impl Serializable for ProofOptions {
         target.write(self.batching_constraints);
         target.write(self.batching_deep);
         target.write_u8(self.partition_options.num_partitions);
-        target.write_u8(self.partition_options.hash_rate);
+        // the hash rate is in the range [1, 256]; the value 256 is encoded as 0
+        target.write_u8(self.partition_options.hash_rate as u8);
     }
 }
 
@@ -335,7 +336,11 @@ impl Deserializable for ProofOptions {
         let batching_constraints = BatchingMethod::read_from(source)?;
         let batching_deep = BatchingMethod::read_from(source)?;
         let num_partitions = source.read_u8()? as usize;
-        let hash_rate = source.read_u8()? as usize;
+        // the hash rate is in the range [1, 256]; the value 256 is encoded as 0
+        let hash_rate = match source.read_u8()? as usize {
+            0 => 256,
+            value => value,
+        };
 
         // the constructors panic on invalid parameters; the values read here are untrusted, so
         // they must be validated before the constructors are invoked
@@ -436,7 +441,7 @@ impl Deserializable for FieldExtension {
 #[derive(Debug, Clone, Copy, Eq, PartialEq)]
 pub struct PartitionOptions {
     num_partitions: u8,
-    hash_rate: u8,
+    hash_rate: u16,
 }
 
 impl PartitionOptions {
@@ -450,7 +455,7 @@ impl PartitionOptions {
 
         Self {
             num_partitions: num_partitions as u8,
-            hash_rate: hash_rate as u8,
+            hash_rate: hash_rate as u16,
         }
     }
 
